@@ -5,7 +5,7 @@
 import os, sys
 sys.path.insert(0, os.path.join(os.environ.get("AIOFTP_REPO", "/repo"), "src"))
 OBLIGATION = 'aioftp.server:retr_worker@retr::ThrottleStreamIO.__aexit__/no-wait-on-the-peer-after-cancellation:writer.wait_closed'
-MODEL = {'restart_offset!10': 1, 'filedone!67': '', 'file_before!53': 'BA', 'wait_future_timeout!45': '0/1', 'block_size!0': 1, 'filerest!74': '', 'data_connection_done!22': True, 'dc_accepted!36': True, 'filedata!73': 'A', 'dc_accepted!47': False, 'dc_accepted!43': False, 'dc_accepted!33': False, 'dc_accepted!37': False, 'dc_accepted!30': False, 'dc_accepted!32': False, 'dc_accepted!42': False, 'dc_accepted!29': False, 'data_connection_present!21': False, 'user_present!11': True, 'user_done!12': True, 'fsbool!35': True, 'passive_server_done!20': True, 'logged_done!14': True, 'fsbool!39': True, 'fileremaining!68': 'A', 'current_directory_present!15': True, 'current_directory_done!16': True, 'passive_server_present!19': True, 'logged_present!13': True, 'readable!40': True, 'written!65': '', 'auth_ok!27': True}
+MODEL = {'restart_offset!10': 1, 'dc_accepted!36': True, 'wait_future_timeout!52': '0/1', 'block_size!0': 1, 'data_connection_done!22': True, 'file_before!74': 'BA', 'filedone!95': '', 'filerest!109': '', 'filedata!108': 'A', 'dc_accepted!54': False, 'dc_accepted!43': False, 'dc_accepted!33': False, 'dc_accepted!37': False, 'dc_accepted!30': False, 'dc_accepted!32': False, 'dc_accepted!42': False, 'dc_accepted!29': False, 'data_connection_present!21': False, 'user_present!11': True, 'current_directory_done!79': True, 'current_directory_done!46': True, 'current_directory_done!57': True, 'current_directory_done!16': True, 'passive_server_present!19': True, 'current_directory_present!78': True, 'current_directory_present!114': True, 'written!93': '', 'readable!40': True, 'current_directory_present!67': True, 'current_directory_present!56': True, 'user_done!12': True, 'fsbool!35': True, 'current_directory_done!115': True, 'current_directory_present!124': True, 'passive_server_done!20': True, 'logged_done!14': True, 'fsbool!39': True, 'current_directory_done!102': True, 'current_directory_present!45': True, 'current_directory_present!101': True, 'current_directory_done!68': True, 'fileremaining!96': 'A', 'current_directory_present!15': True, 'logged_present!13': True, 'current_directory_done!125': True, 'auth_ok!27': True}
 SOLVER_NOTE = ''
 
 print("obligation", OBLIGATION, "failed; no concrete failing input could be constructed automatically")
